@@ -328,8 +328,10 @@ class Ctx:
             "wall_s": round(wall, 2),
             "violations": len(self.violations),
         }
-        evd = ROOT / "evidence"
-        evd.mkdir(exist_ok=True)
+        # evidence/ only ever describes runs against /repo itself; runs against a scratch copy
+        # (VERIF_REPO=..., used to try seeded changes) leave it alone
+        evd = ROOT / "evidence" if str(REPO) == "/repo" else self.build / "evidence-scratch"
+        evd.mkdir(parents=True, exist_ok=True)
         (evd / f"{self.pid}.json").write_text(json.dumps(ev, indent=1, default=str))
         for k in self.known_hit:
             print(f"KNOWN-FINDING: property={self.pid} {k['what']}", flush=True)
